@@ -34,6 +34,9 @@ pub fn install_panic_hook() {
         let loc = info.location().map(|l| {
             format!("{}:{}", l.file(), l.line())
         }).unwrap_or_default();
+        if std::env::var_os("VERIF_SHOW_PANICS").is_some() {
+            eprintln!("panic: {msg} @ {loc}");
+        }
         *LAST_PANIC.lock().unwrap_or_else(|e| e.into_inner())
             = Some(format!("{msg} @ {loc}"));
     }));
@@ -93,13 +96,18 @@ pub fn gen_keys(count: usize, path: &Path) {
             res
         }));
     }
-    let mut out = fs::File::create(path).unwrap();
+    // (written under another name and renamed: a reader never sees a
+    // partial pool, two writers never interleave)
+    let tmp = path.with_extension(format!("tmp{}", std::process::id()));
+    let mut out = fs::File::create(&tmp).unwrap();
     for h in handles {
         for der in h.join().unwrap() {
             out.write_all(&(der.len() as u32).to_le_bytes()).unwrap();
             out.write_all(&der).unwrap();
         }
     }
+    drop(out);
+    fs::rename(&tmp, path).unwrap();
 }
 
 /// Loads the pool file into memory (once).
@@ -115,6 +123,9 @@ pub fn load_keys() {
             data[pos..pos + 4].try_into().unwrap()
         ) as usize;
         pos += 4;
+        if pos + len > data.len() {
+            break
+        }
         keys.push(data[pos..pos + len].to_vec());
         pos += len;
     }
